@@ -15,7 +15,7 @@ LEVEL = "exploration"
 QUICK_SHARDS = 4
 RULE = (
     "Hypothesis (value tree, construction route, list of re-encoding transformations, transformation seed) over the "
-    "kitchen-sink corpus. Clauses: reference decodes bytes(bp) to the tree; betterproto decodes the reference "
+    "kitchen-sink corpus, plus grammar-generated schemas compiled by the current plugin with PRNG-drawn values. Clauses: reference decodes bytes(bp) to the tree; betterproto decodes the reference "
     "serialisation to the tree; betterproto decodes every legal re-encoding (spec-level re-encoder: field-order "
     "permutation preserving per-number and per-oneof order, packed<->unpacked, packed field split in chunks, "
     "non-minimal varints in tags / lengths / values / packed elements, overridden earlier occurrences of singular "
@@ -126,7 +126,95 @@ def targets(ctx):
         case["xseed"] = draw(st.integers(0, 2**16))
         return case
 
+    # ---- programs: grammar-generated schemas, PRNG-drawn values, differential in both directions + re-encodings
+    def grammar_ev(case):
+        from .. import build, gen
+        from ..schema import render
+        from ..schema_info import Schema
+        from .c18 import simple_tree
+
+        files = render(case["ast"])
+        comp = gen.compile_files(files, tag="c02g_")
+        try:
+            if comp.protoc_rejected:
+                return Eval(discard="protoc rejects")
+            if comp.rc != 0:
+                return Eval(discard="plugin failed (reported by C03)")
+            gen.import_all(comp)
+            if comp.import_errors:
+                return Eval(discard="generated package not importable (reported by C03)")
+            gschema = Schema(comp.fds)
+            gref = build.Ref(comp.fds)
+            gadapter = BPAdapter(gschema)
+            classes = {}
+            for pkg, mod in comp.modules.items():
+                for cls in gen.classes_of(mod)[0]:
+                    mk = gen.marker_of_message(cls)
+                    if mk:
+                        classes[mk] = cls
+            fulls = {fi.number: full for full, mi in gschema.messages.items() for fi in mi.fields if fi.number > 20000 and fi.name.startswith("mk")}
+            fails, n, nt, seen = [], 0, 0, set()
+            for vs in case["vseeds"]:
+                rng = random.Random(vs)
+                marks = sorted(m for m in fulls if m in classes)
+                if not marks:
+                    break
+                for _ in range(8):
+                    mk = marks[rng.randrange(len(marks))]
+                    mi = gschema.msg(fulls[mk])
+                    cls = classes[mk]
+                    tree = simple_tree(gschema, mi.full_name, rng)
+                    want = norm(gschema, mi, tree)
+                    n += 1
+                    found = []
+                    try:
+                        refmsg = to_ref(gschema, gref, mi.full_name, tree)
+                        ref_bytes = refmsg.SerializeToString(deterministic=True)
+                        m = guard("build", gadapter.build, cls, mi, tree)
+                        b = guard("bytes", bytes, m)
+                        try:
+                            back = gref.cls(mi.full_name).FromString(b)
+                            got = norm(gschema, mi, snap_ref(gschema, mi, back))
+                            if got != want:
+                                found.append(("bp_to_ref", f"reference reads {got!r:.200} want {want!r:.200}"))
+                        except Exception as e:  # noqa: BLE001
+                            found.append(("bp_to_ref_rejected", f"{e}"))
+                        m2 = guard("parse_ref", cls().parse, ref_bytes)
+                        got = norm(gschema, mi, guard("snapshot", snap_bp, gschema, mi, m2))
+                        if got != want:
+                            found.append(("ref_to_bp", f"betterproto reads {got!r:.200} want {want!r:.200}"))
+                        ops = rng.sample(list(wire.ALL_OPS), rng.randrange(1, 4))
+                        stats = {}
+                        e = wire.reencode(gschema, mi, ref_bytes, ops, random.Random(vs), stats=stats)
+                        if e != ref_bytes:
+                            try:
+                                ok = norm(gschema, mi, snap_ref(gschema, mi, gref.cls(mi.full_name).FromString(e))) == want
+                            except Exception:  # noqa: BLE001
+                                ok = False
+                            if ok:
+                                nt += 1
+                                m3 = guard("parse_reencoded", cls().parse, e)
+                                got = norm(gschema, mi, guard("snapshot_re", snap_bp, gschema, mi, m3))
+                                if got != want:
+                                    found.append(("reencoded_to_bp", f"ops={ops} got={got!r:.200} want={want!r:.200}"))
+                    except Guarded as g:
+                        found.append((f"raises_{g.where}_{type(g.exc).__name__}", str(g)))
+                    for cl, d in found:
+                        kinds = ",".join(sorted({fi.kind for fi in mi.fields if fi.name in tree}))[:120]
+                        sig = f"grammar|{cl}|{kinds}"
+                        if sig not in seen:
+                            seen.add(sig)
+                            fails.append(Failure(cl, sig, f"{mi.full_name} tree={tree!r:.300} :: {d}\n" + "\n".join(f"# {k}\n{t}" for k, t in files.items())[:2000]))
+            return Eval(fails, weight=max(1, n), nontrivial_count=nt, labels=["grammar_schema"])
+        finally:
+            comp.cleanup()
+
+    from ..schema import schema_ast
+
+    gstrat = st.tuples(schema_ast(max_packages=2, services=False), st.lists(st.integers(0, 2**20), min_size=4, max_size=4)).map(lambda t: {"ast": t[0], "vseeds": t[1]})
+
     return [
+        Target("grammar_schema_values", grammar_ev, strategy=gstrat, quick=3, thorough=40, time_quick=60, time_thorough=900, pin_budget=10, pin_sigs=1),
         Target("corpus_values_reencoded", ev, strategy=strat(), quick=450, thorough=6000, time_quick=70),
         Target("dense_reencodings", ev, strategy=dense(), quick=350, thorough=5000, time_quick=70),
     ]
